@@ -81,6 +81,12 @@ structure World where
   iters : List Iter
   /-- `_current_mol_index` (as-shipped variant; the repaired code has no such field) -/
   cursor : Nat
+  /-- the other live ensembles of the history: sources of copies made by `ConformerEnsemble(ens)`, most recent
+  first; `swap k` makes one of them the ensemble under the variable again -/
+  others : List Ens := []
+  /-- conformer objects handed out by iterations and KEPT by the caller; a conformer is the index of its row and
+  nothing ever moves it -/
+  kept : List Nat := []
   deriving Repr, DecidableEq
 
 /-! ### allocation (the constructor branches) -/
@@ -350,6 +356,18 @@ inductive Op
   | iterNext (k : Nat)
   | loop
   | nestedLoop
+  /-- make the `k`-th other live ensemble the current one (the current one takes its place) -/
+  | swap (k : Nat)
+  /-- `ConformerEnsemble(ens, name=…, n_conformers=…)`: keywords do not change what is copied -/
+  | ctorCopyKw
+  /-- `kept.append(next(it))` -/
+  | iterNextKeep (k : Nat)
+  /-- `kept += list(ens)` -/
+  | loopKeep
+  /-- use a kept conformer object after its iteration has moved on / ended -/
+  | readKept (j : Nat)
+  | writeKept (j : Nat) (c : Conf)
+  | dumpKept (j : Nat)
   deriving Repr
 
 inductive Out
@@ -368,18 +386,54 @@ def initWorld : World := { ens := alloc 0 0, iters := [], cursor := 0 }
 /-- a constructor binds a fresh ensemble to the variable: old iterators belong to the old object -/
 def rebind (e : Ens) : World := { ens := e, iters := [], cursor := 0 }
 
+/-- … inside a history: the other live ensembles stay what they are -/
+def rebindIn (w : World) (e : Ens) : World := { ens := e, iters := [], cursor := 0, others := w.others, kept := [] }
+
+/-- `ConformerEnsemble(ens)`: the copy becomes the current ensemble, the source stays alive -/
+def copyCtor (w : World) : World := { ens := w.ens, iters := [], cursor := 0, others := w.ens :: w.others, kept := [] }
+
 def upd (w : World) : Option Ens → World × Out
   | some e => ({ w with ens := e }, .ok)
   | none => (w, .err)
 
 def step (v : Variant) (w : World) : Op → World × Out
-  | .ctorAtoms nA nC => (rebind (alloc nA nC), .ok)
-  | .ctorMol nA k => (rebind (allocFromMol nA k), .ok)
+  | .ctorAtoms nA nC => (rebindIn w (alloc nA nC), .ok)
+  | .ctorMol nA k => (rebindIn w (allocFromMol nA k), .ok)
   | .ctorMols ms =>
     match allocFromMols ms with
-    | some e => (rebind e, .ok)
+    | some e => (rebindIn w e, .ok)
     | none => (w, .err)
-  | .ctorCopy => (rebind w.ens, .ok)
+  | .ctorCopy => (copyCtor w, .ok)
+  | .ctorCopyKw => (copyCtor w, .ok)
+  | .swap k =>
+    match w.others[k]? with
+    | some o => ({ ens := o, iters := [], cursor := 0, others := w.others.set k w.ens, kept := [] }, .ok)
+    | none => (w, .err)
+  | .iterNextKeep k =>
+    if v = .repaired ∧ w.iters.length ≤ k then (w, .err)
+    else let (w', r) := iterNext v w k; ({ w' with kept := w'.kept ++ r.toList }, .yielded r)
+  | .loopKeep =>
+    let (w1, k) := iterNew v w
+    let (w2, l) := drain v (w1.ens.nC + 1) w1 k
+    ({ w2 with iters := w.iters, kept := w2.kept ++ l }, .idxs l)
+  | .readKept j =>
+    match w.kept[j]? with
+    | some i =>
+      match readConf w.ens i with
+      | some x => (w, .view x)
+      | none => (w, .err)
+    | none => (w, .err)
+  | .writeKept j c =>
+    match w.kept[j]? with
+    | some i => upd w (writeCoords w.ens i c)
+    | none => (w, .err)
+  | .dumpKept j =>
+    match w.kept[j]? with
+    | some i =>
+      match dump w.ens i with
+      | some x => (w, .view x)
+      | none => (w, .err)
+    | none => (w, .err)
   | .append g => upd w (append v w.ens g)
   | .extendEns o => upd w (extendEns v w.ens o)
   | .extendSelf => upd w (extendEns v w.ens w.ens)
